@@ -420,6 +420,7 @@ fn main() {
     let formats = vec![
         FormatDef {
             name: "mpq",
+            family: "mpq",
             entries: &["Archive::open", "Archive::list", "Archive::find_file", "Archive::read_file", "Archive::load_attributes", "Archive::get_info", "Archive::verify_signature"],
             seeds: mpq_seeds,
             drive: mpq_drive,
@@ -430,6 +431,7 @@ fn main() {
         },
         FormatDef {
             name: "ptch",
+            family: "ptch",
             entries: &["PatchFile::parse", "apply_patch"],
             seeds: ptch_seeds,
             drive: ptch_drive,
